@@ -868,6 +868,9 @@ class ExprMixin:
         depth_ok = True
         if it.op in ("Tuple", "List") and not any(a.op == "Starred" for a in it.args):
             return list(it.args) if len(it.args) <= limit else None
+        if it.op == "Obj" and it.extra and it.extra.get("tuple_fields") is not None:
+            tf = it.extra["tuple_fields"]           # a named-tuple instance iterates over its fields
+            return list(tf) if len(tf) <= limit else None
         if it.op in ("Dict", "DictKeys") and depth_ok:
             d = it if it.op == "Dict" else it.args[0]
             if d.op == "Dict" and not any(k[0] == "**" for k in d.attr) and len(d.attr) <= limit:
